@@ -33,7 +33,9 @@ ThDynamicIsPrefixed == Chosen => Enc(S("m"), <<T_, V_>>) = {Str(Sig(T_)) \o e : 
 MutRec(T, m) == [pos |-> m.pos, kind |-> m.kind, esz |-> m.esz, h |-> m.h,
                  q |-> SubSeq(m.bytes, m.pos + 1, m.pos + 4),
                  exp |-> IF IsErr(Dec(T, m.bytes)) THEN "err" ELSE "ok"]
+FieldRec(f) == [pos |-> f.pos, kind |-> f.kind, n |-> f.n, esz |-> f.esz, fix |-> f.fix]
 MutVec == [t |-> T_, sig |-> Sig(T_), enc |-> Canon, vprefix |-> Str(Sig(T_)),
+           flds |-> SetToSeq({FieldRec(f) : f \in Fields(T_, V_, 0)}),
            muts |-> SetToSeq({MutRec(T_, m) : m \in Mutants(T_, V_)}),
            vmuts |-> SetToSeq({MutRec(S("m"), m) : m \in {x \in Mutants(S("m"), <<T_, V_>>) : x.pos = 0}})]
 
